@@ -175,17 +175,43 @@ func c03Timeline(c *Ctx) {
 			continue
 		}
 		name := a.MPDs[0]
+		type job struct {
+			cs   string
+			now  int64
+			emit bool
+		}
+		var jobs []job
 		for _, cf := range []cfgVar{mkCfg(0, 60, 0, 0, "tlt"), mkCfg(61, 30, 3, 0, "tln"), mkCfg(0, 20, 0, 1500, "tlt")} {
 			for _, now := range pickInstants(c, a, cf, c.N(5, 30)) {
-				line := fmt.Sprintf("mpd %s %s %s %d", a.AssetPath, cf.s, name, now)
-				out := c.Emit(line, true)
-				if !strings.HasPrefix(out, "dynamic") {
+				jobs = append(jobs, job{cf.s, now, true})
+			}
+			// split into periods: the window spans a period boundary that is no whole number of audio frames (odd minutes
+			// for 1024-sample frames at 48 kHz); every Period's audio timeline follows that Period's video timeline
+			if 60000%a.SegmentDurMS == 0 {
+				for _, now := range []int64{1061000, 1021000 + int64(c.Rng.Intn(40000)), 1790000000000/120000*120000 + 61000, 1790000000000/120000*120000 + 60000 + int64(c.Rng.Intn(59000))} {
+					jobs = append(jobs, job{withPeriods(cf.s, 60, false), now + int64(cf.startS)*1000, false})
+				}
+			}
+		}
+		for _, jb := range jobs {
+			now := jb.now
+			line := fmt.Sprintf("mpd %s %s %s %d", a.AssetPath, jb.cs, name, now)
+			if jb.emit {
+				if out := c.Emit(line, true); !strings.HasPrefix(out, "dynamic") {
 					continue
 				}
-				res := doLive("GET", mpdURL(a.AssetPath, cf.s, name, strconv.FormatInt(now, 10)))
-				m, err := parseMPD(res.body)
-				if err != nil || len(m.Periods) != 1 {
-					continue
+			} else {
+				line = "# " + line
+			}
+			res := doLive("GET", mpdURL(a.AssetPath, jb.cs, name, strconv.FormatInt(now, 10)))
+			mAll, err := parseMPD(res.body)
+			if err != nil || res.code != 200 || (jb.emit && len(mAll.Periods) != 1) {
+				continue
+			}
+			for pi := range mAll.Periods {
+				m := &xMPD{Periods: []xPeriod{mAll.Periods[pi]}}
+				if !jb.emit {
+					c.Count("audio-timelines-periods")
 				}
 				var vtl [][2]uint64
 				var vT uint64
